@@ -14,6 +14,12 @@ type QuadAsTripleEncoder struct {
 var _ encoding.QuadsEncoder = &QuadAsTripleEncoder{}
 var _ encoding.TriplesEncoder = &QuadAsTripleEncoder{}
 
+// AddQuad adds the triple of a quad of the default graph. A triples encoder has no place for other graphs: their
+// quads are left out rather than merged into the default graph.
 func (e QuadAsTripleEncoder) AddQuad(ctx context.Context, quad rdf.Quad) error {
+	if quad.GraphName != nil {
+		return nil
+	}
+
 	return e.TriplesEncoder.AddTriple(ctx, quad.Triple)
 }
